@@ -171,8 +171,17 @@ def run_one(case):
     if top.get('prepend'):
         kwargs['prepend'] = prepend_obj(top)
     if case.get('specs') is not None:
-        kwargs['metadata'] = {'specs': {k: _state['spec'].ControlSpec(0, 1, default=v)
-                                        for k, v in case['specs'].items()}}
+        smin = case.get('spec_min') or {}
+        # named specs (default 0, minval != 0) where the case asks for them, else explicit ControlSpecs
+        named = case.get('spec_named') or {}
+        specs = {}
+        for k, v in case['specs'].items():
+            if k in named:
+                specs[k] = _state['spec'].spec(named[k]) if hasattr(_state['spec'], 'spec') else \
+                    _state['spec'].ControlSpec(-1, 1, default=0)
+            else:
+                specs[k] = _state['spec'].ControlSpec(smin.get(k, 0), max(1, smin.get(k, 0) + 1), default=v)
+        kwargs['metadata'] = {'specs': specs}
     if case.get('variants'):
         kwargs['variants'] = {vn: {cn: vals for cn, vals in pairs} for vn, pairs in case['variants']}
     before = repr([kwargs.get('rates'), kwargs.get('prepend'), kwargs.get('variants')])
